@@ -22,6 +22,7 @@
 #include "sonic/experiment/lazy_update.h"
 
 #include "common.h"
+#include "cmd_dom.h"
 #include "cmd_itoa.h"
 #include "cmd_ftoa.h"
 #include "cmd_memcmp.h"
@@ -31,10 +32,12 @@
 #include "cmd_parse.h"
 #include "cmd_pool.h"
 #include "cmd_quote.h"
+#include "cmd_ser.h"
 #include "cmd_strdec.h"
 
 int main(int argc, char** argv) {
   std::ios::sync_with_stdio(false);
+  if (getenv("VERIF_FLUSH")) setvbuf(stdout, nullptr, _IONBF, 0);  // crash attribution: one write per line
   std::string line;
   std::string out;
   out.reserve(1 << 16);
@@ -54,6 +57,10 @@ int main(int argc, char** argv) {
       vod::cmd(tok, out);
     } else if (tok[0] == "schema" || tok[0] == "lazy") {
       vmerge::cmd(tok, out);
+    } else if (tok[0].compare(0, 4, "dom-") == 0) {
+      vdom::cmd(tok, out);
+    } else if (tok[0] == "ser") {
+      cmd_ser(tok, out);
     } else if (tok[0] == "memcmp") {
       cmd_memcmp(tok, out);
     } else if (tok[0] == "quote") {
@@ -72,6 +79,7 @@ int main(int argc, char** argv) {
   }
   fflush(stdout);
   pool_state.reset();
+  vdom::finish(nullptr);
   vh::ledger().reset();
   return 0;
 }
